@@ -81,7 +81,7 @@ def gmm_case(draw):
     return {"d": d, "K": K, "n": draw(st.sampled_from([20000, 60000, 120000])), "pvals": draw(st.sampled_from(PVALS[K])),
             "pseed": draw(gens.seeds), "seed": draw(st.integers(0, 10 ** 6)), "cov_kind": draw(st.sampled_from(["full", "diag", "identity", "lowrank"])),
             "layout_1d": draw(st.sampled_from(["K1", "K11"])), "spread": draw(st.sampled_from([1.0, 0.1, 25.0])),
-            "mixed_spread": draw(st.booleans())}
+            "mixed_spread": draw(st.booleans()), "tied": draw(st.integers(0, 3)) == 0}
 
 
 def gmm_params(c):
@@ -102,7 +102,9 @@ def gmm_params(c):
             S = A @ A.T + 0.1 * np.eye(d)
         covs.append(S * c["spread"])
     covs = np.array(covs)
-    if c.get("mixed_spread"):
+    if c.get("tied"):
+        covs[:] = covs[0]  # every component shares one covariance (only the means differ)
+    if c.get("mixed_spread") and not c.get("tied"):
         covs = covs * rs.choice([1e-4, 1.0, 1e4], size=K)[:, None, None]
     return loc, covs
 
@@ -113,7 +115,7 @@ def oracle_gmm(c):
     scale = covs
     if d == 1 and c["layout_1d"] == "K1":
         scale = covs.reshape(K, 1)
-    label = f"draw_gmm(n={n}, K={K}, d={d}, pvals={c['pvals']}, covariances {c['cov_kind']} x{c['spread']}{' x per-component 1e-4..1e4' if c.get('mixed_spread') else ''}" + \
+    label = f"draw_gmm(n={n}, K={K}, d={d}, pvals={c['pvals']}, covariances {c['cov_kind']} x{c['spread']}{' x per-component 1e-4..1e4' if c.get('mixed_spread') else ''}{', tied' if c.get('tied') else ''}" + \
             (f", 1-d layout {c['layout_1d']}" if d == 1 else "") + ")"
     try:
         X, y = D.draw_gmm(n, loc, scale, np.array(c["pvals"]), random_state=c["seed"])
